@@ -19,7 +19,8 @@ Fixpoint le_encode (n : nat) (v : Z) : list Z := match n with O => [] | S k => (
 
 (* _to_effective_key *)
 Definition eff_key (m : kmode) (k : list Z) (comp : Z) : rcode * key :=
-  if km_vnum m then
+  if km_compound m && (comp <? 0) then (RInvalidArgs, ([], comp))   (* no encoded form for a negative compound part *)
+  else if km_vnum m then
     if Nat.eqb (length k) 8 then
       let e := set_vnum64 (le_decode k) in if Nat.eqb (length e) 0 then (ROverflow, ([], comp)) else (ROk, (e, if km_compound m then comp else 0))
     else if Nat.eqb (length k) 4 then
